@@ -10,6 +10,7 @@ package manifest
 //@ import sdl "github.com/ovrclk/akash/sdl"
 //@ import validation "github.com/ovrclk/akash/validation"
 //@ import dtypes "github.com/ovrclk/akash/x/deployment/types"
+//@ import event "github.com/ovrclk/akash/provider/event"
 
 // ---- C10: a manifest is accepted only if its hash is the version the chain holds for the deployment -----------
 // the manifest's version hash (sha256 over sorted JSON, sdl.ManifestVersion; A-HASH: a function of the manifest's content)
@@ -33,14 +34,191 @@ package manifest
 // of the deployment as fetched from the chain
 //@ func (*manager).validateRequest
 //@   requires m != nil && m.data != nil && req.value != nil
-//@   modifies ghost ChanKind, ghost ChanPending, ghost InFlight
+//@   modifies nothing
 //@   ensures [version] result == nil ==> old(manifestHash(req.value.Manifest) == ite(len(m.versions) != 0, m.versions[len(m.versions) - 1], m.data.Deployment.Version))
 //@   ensures [valid] result == nil ==> old(manifestValid(req.value.Manifest) && manifestMatches(req.value.Manifest, m.data.Groups))
 //@   loop 1 modifies groupNames[**]
 //@   loop 1 invariant 0 <= iter && 0 <= len(groupNames) && len(groupNames) <= cap(groupNames) && (cap(groupNames) > 0 ==> fresh(groupNames))
 //@   loop 1 invariant arr(groupNames) == atloop(arr(groupNames)) || freshloop(groupNames)
+// (waits on the hostname service's answer channel, an ordinary channel: no worker result is consumed)
 //@ func (*manager).checkHostnamesForManifest
 //@   trusted
-//@   modifies ghost ChanKind, ghost ChanPending, ghost InFlight
+//@   modifies nothing
 
 //@ property C10 := (*manager).validateRequest#*
+
+// ---- C20: every submission is answered exactly once; announcements only with lease, chain data and a validated manifest
+// reply-channel protocol (A-FRESHCH): RepSt[c] is 0 for a channel never received as a submission, 1 while the
+// submission is outstanding (queued in m.requests or m.pendingRequests), 2 once a reply has been sent.  Outst counts
+// the channels in state 1.  Every send on a reply channel must find it in state 1 (so: at most one reply), and the run
+// loop ends with Outst == 0 (so: at least one reply).  QPos[c] is the queue position of an outstanding channel
+// (i+1 for m.requests[i], -(j+1) for m.pendingRequests[j]): it makes the queue entries pairwise distinct.
+//@ ghost RepSt: map[ref]int
+//@ ghost QPos: map[ref]int
+//@ ghost Outst: int
+
+//@ spec qOK(m: *manager, RepSt: map[ref]int, QPos: map[ref]int, Outst: int): bool =
+//@     (forall i: int {m.requests[i].ch} :: 0 <= i && i < len(m.requests) ==> m.requests[i].ch != nil && RepSt[m.requests[i].ch] == 1 && m.requests[i].value != nil && root(m.requests[i].value) != root(m) && QPos[m.requests[i].ch] == i + 1)
+//@  && (forall j: int {m.pendingRequests[j]} :: 0 <= j && j < len(m.pendingRequests) ==> m.pendingRequests[j] != nil && RepSt[m.pendingRequests[j]] == 1 && QPos[m.pendingRequests[j]] == 0 - (j + 1))
+//@  && Outst == len(m.requests) + len(m.pendingRequests)
+//@  && 0 <= len(m.requests) && len(m.requests) <= cap(m.requests) && 0 <= len(m.pendingRequests) && len(m.pendingRequests) <= cap(m.pendingRequests)
+
+// the manager's queues live in separate arrays (Go's allocator: a slice of one element type never shares its backing
+// array with a slice of another, nor with the manager struct itself; stated because the memory model is untyped)
+//@ spec sepOK(m: *manager): bool =
+//@     (arr(m.requests) != nil ==> root(m.requests) != root(m))
+//@  && (arr(m.pendingRequests) != nil ==> root(m.pendingRequests) != root(m))
+//@  && (arr(m.manifests) != nil ==> root(m.manifests) != root(m))
+//@  && (arr(m.leases) != nil ==> root(m.leases) != root(m))
+//@  && (arr(m.versions) != nil ==> root(m.versions) != root(m))
+//@  && (arr(m.requests) != nil && arr(m.pendingRequests) != nil ==> root(m.requests) != root(m.pendingRequests))
+//@  && (arr(m.requests) != nil && arr(m.manifests) != nil ==> root(m.requests) != root(m.manifests))
+//@  && (arr(m.requests) != nil && arr(m.leases) != nil ==> root(m.requests) != root(m.leases))
+//@  && (arr(m.requests) != nil && arr(m.versions) != nil ==> root(m.requests) != root(m.versions))
+//@  && (arr(m.pendingRequests) != nil && arr(m.manifests) != nil ==> root(m.pendingRequests) != root(m.manifests))
+//@  && (arr(m.pendingRequests) != nil && arr(m.leases) != nil ==> root(m.pendingRequests) != root(m.leases))
+//@  && (arr(m.pendingRequests) != nil && arr(m.versions) != nil ==> root(m.pendingRequests) != root(m.versions))
+//@  && (arr(m.manifests) != nil && arr(m.leases) != nil ==> root(m.manifests) != root(m.leases))
+//@  && (arr(m.manifests) != nil && arr(m.versions) != nil ==> root(m.manifests) != root(m.versions))
+//@  && (arr(m.leases) != nil && arr(m.versions) != nil ==> root(m.leases) != root(m.versions))
+
+//@ func (*manager).fillAllRequests
+//@   requires m != nil && qOK(m, RepSt, QPos, Outst)
+//@   modifies m.pendingRequests, m.requests, ghost RepSt, ghost Outst
+//@   onsend * assert RepSt[sendch] == 1
+//@   onsend * ghost RepSt := RepSt[sendch := 2]
+//@   onsend * ghost Outst := Outst - 1
+//@   loop 1 modifies ghost RepSt, ghost Outst
+//@   loop 2 modifies ghost RepSt, ghost Outst
+//@   loop 1 invariant 0 <= iter && iter <= len(m.pendingRequests)
+//@   loop 2 invariant 0 <= iter && iter <= len(m.requests)
+//@   loop 1 invariant Outst == old(Outst) - iter
+//@   loop 1 invariant forall i: int {m.pendingRequests[i]} :: iter <= i && i < len(m.pendingRequests) ==> RepSt[m.pendingRequests[i]] == 1
+//@   loop 1 invariant forall i: int {m.requests[i].ch} :: 0 <= i && i < len(m.requests) ==> RepSt[m.requests[i].ch] == 1
+//@   loop 2 invariant Outst == len(m.requests) - iter
+//@   loop 2 invariant forall i: int {m.requests[i].ch} :: iter <= i && i < len(m.requests) ==> RepSt[m.requests[i].ch] == 1
+//@   ensures [answered] Outst == 0 && len(m.requests) == 0 && len(m.pendingRequests) == 0 && arr(m.requests) == nil && arr(m.pendingRequests) == nil
+//@   ensures [queues] qOK(m, RepSt, QPos, Outst)
+
+// the manifests the manager holds were validated (stand-alone and against the fetched groups), and exist only with chain data
+//@ spec mOK(m: *manager): bool =
+//@     (m.data == nil ==> len(m.manifests) == 0) && 0 <= len(m.manifests) && len(m.manifests) <= cap(m.manifests) && (m.data != nil ==> root(m.data) != root(m))
+//@  && (forall k: int {m.manifests[k]} :: 0 <= k && k < len(m.manifests) ==> m.manifests[k] != nil && root(m.manifests[k]) != root(m) && manifestValid(*m.manifests[k]) && manifestMatches(*m.manifests[k], m.data.Groups))
+
+//@ func (*manager).emitReceivedEvents
+//@   requires m != nil && qOK(m, RepSt, QPos, Outst) && mOK(m)
+//@   modifies m.pendingRequests, m.requests, ghost RepSt, ghost Outst
+//@   onsend * assert RepSt[sendch] == 1
+//@   onsend * ghost RepSt := RepSt[sendch := 2]
+//@   onsend * ghost Outst := Outst - 1
+//@   oncall pubsub.(Bus).Publish 1 assert len(m.leases) > 0 && m.data != nil && len(m.manifests) > 0
+//@   oncall pubsub.(Bus).Publish 1 assert unbox(callarg0, event.ManifestReceived).Manifest == m.manifests[len(m.manifests) - 1] && unbox(callarg0, event.ManifestReceived).Deployment == m.data
+//@   oncall pubsub.(Bus).Publish 1 assert manifestValid(*unbox(callarg0, event.ManifestReceived).Manifest) && manifestMatches(*unbox(callarg0, event.ManifestReceived).Manifest, m.data.Groups)
+//@   loop 1 modifies nothing
+//@   loop 1 invariant 0 <= iter
+//@   loop 2 modifies ghost RepSt, ghost Outst
+//@   loop 2 invariant 0 <= iter && iter <= len(m.pendingRequests)
+//@   loop 2 invariant Outst == old(Outst) - iter
+//@   loop 2 invariant forall i: int {m.pendingRequests[i]} :: iter <= i && i < len(m.pendingRequests) ==> RepSt[m.pendingRequests[i]] == 1
+//@   loop 2 invariant forall i: int {m.requests[i].ch} :: 0 <= i && i < len(m.requests) ==> RepSt[m.requests[i].ch] == 1
+//@   ensures [queues] qOK(m, RepSt, QPos, Outst)
+//@   ensures [nolease] len(m.leases) == 0 ==> Outst == 0
+//@   ensures [announced] len(m.leases) > 0 && m.data != nil && len(m.manifests) > 0 ==> len(m.pendingRequests) == 0
+//@   ensures [kept] old(len(m.leases) > 0) ==> len(m.requests) == old(len(m.requests)) && arr(m.requests) == old(arr(m.requests))
+//@   ensures [arrs] (arr(m.requests) == nil || arr(m.requests) == old(arr(m.requests))) && (arr(m.pendingRequests) == nil || arr(m.pendingRequests) == old(arr(m.pendingRequests)))
+
+// with chain data present every queued submission is validated: rejected ones are answered at once, accepted ones wait
+// (still outstanding) for the announcement; the first accepted manifest becomes the latest validated one
+//@ func (*manager).validateRequests
+//@   requires m != nil && qOK(m, RepSt, QPos, Outst) && mOK(m) && sepOK(m)
+//@   modifies m.requests, m.pendingRequests, m.pendingRequests[**], m.manifests, m.manifests[**], ghost RepSt, ghost QPos, ghost Outst
+//@   onsend * assert RepSt[sendch] == 1
+//@   onsend * ghost RepSt := RepSt[sendch := 2]
+//@   onsend * ghost Outst := Outst - 1
+//@   oncall manifest.(*manager).validateRequest 1 ghost QPos := ite(callresult == nil, QPos[req.ch := 0 - (len(m.pendingRequests) + 1)], QPos)
+//@   loop 1 modifies m.pendingRequests, m.pendingRequests[**], manifests[**], ghost RepSt, ghost QPos, ghost Outst
+//@   loop 1 invariant 0 <= iter && iter <= len(m.requests) && m.data != nil
+//@   loop 1 invariant Outst == len(m.requests) - iter + len(m.pendingRequests)
+//@   loop 1 invariant 0 <= len(m.pendingRequests) && len(m.pendingRequests) <= cap(m.pendingRequests)
+//@   loop 1 invariant forall i: int {m.requests[i].ch} :: iter <= i && i < len(m.requests) ==> m.requests[i].ch != nil && RepSt[m.requests[i].ch] == 1 && m.requests[i].value != nil && root(m.requests[i].value) != root(m) && QPos[m.requests[i].ch] == i + 1
+//@   loop 1 invariant forall j: int {m.pendingRequests[j]} :: 0 <= j && j < len(m.pendingRequests) ==> m.pendingRequests[j] != nil && RepSt[m.pendingRequests[j]] == 1 && QPos[m.pendingRequests[j]] == 0 - (j + 1)
+//@   loop 1 invariant 0 <= len(manifests) && len(manifests) <= cap(manifests) && fresh(manifests)
+//@   loop 1 invariant forall k: int {manifests[k]} :: 0 <= k && k < len(manifests) ==> manifests[k] != nil && root(manifests[k]) != root(m) && manifestValid(*manifests[k]) && manifestMatches(*manifests[k], m.data.Groups)
+//@   loop 1 invariant mOK(m)
+//@   loop 1 invariant arr(manifests) == atloop(arr(manifests)) || freshloop(manifests)
+//@   loop 1 invariant arr(m.pendingRequests) == atloop(arr(m.pendingRequests)) || freshloop(m.pendingRequests)
+//@   loop 1 invariant sepOK(m) && root(manifests) != root(m) && (arr(m.pendingRequests) != nil ==> root(manifests) != root(m.pendingRequests))
+//@   ensures [queues] qOK(m, RepSt, QPos, Outst)
+//@   ensures [valid] mOK(m)
+//@   ensures [drained] m.data != nil ==> len(m.requests) == 0
+//@   ensures [sep] sepOK(m)
+//@   ensures [arrs] (arr(m.pendingRequests) == nil || arr(m.pendingRequests) == old(arr(m.pendingRequests)) || fresh(m.pendingRequests)) && (arr(m.manifests) == nil || arr(m.manifests) == old(arr(m.manifests)) || fresh(m.manifests))
+//@   ensures [arrs2] arr(m.requests) == nil || arr(m.requests) == old(arr(m.requests))
+
+// the linger timer: its channel is an ordinary channel (not a worker result channel)
+//@ extern "time".NewTimer(d)
+//@   fresh
+//@   ensures result != nil && result.C != nil && ChanKind[result.C] == 0
+//@ extern "time".(*Timer).Stop(t)
+//@   pure
+//@ extern "encoding/hex".EncodeToString(src)
+//@   pure
+//@ spec timerOK(m: *manager, ChanKind: map[ref]int): bool = m.stoptimer != nil ==> m.stoptimer.C != nil && ChanKind[m.stoptimer.C] == 0 && root(m.stoptimer) != root(m)
+//@     && (arr(m.requests) != nil ==> root(m.requests) != root(m.stoptimer)) && (arr(m.pendingRequests) != nil ==> root(m.pendingRequests) != root(m.stoptimer))
+//@     && (arr(m.manifests) != nil ==> root(m.manifests) != root(m.stoptimer)) && (arr(m.leases) != nil ==> root(m.leases) != root(m.stoptimer))
+//@     && (arr(m.versions) != nil ==> root(m.versions) != root(m.stoptimer)) && (m.data != nil ==> root(m.data) != root(m.stoptimer))
+//@ func (*manager).maybeScheduleStop
+//@   requires m != nil && timerOK(m, ChanKind)
+//@   modifies m.stoptimer
+//@   ensures timerOK(m, ChanKind)
+
+// chain data is fetched by one worker at a time, and only while there is none
+//@ func (*manager).fetchData
+//@   requires m != nil
+//@   modifies ghost ChanKind, ghost ChanPending, ghost InFlight
+//@   ensures result != nil && fresh(result) && InFlight == old(InFlight) + 1
+//@   ensures ChanKind == old(ChanKind)[result := 1] && ChanPending == old(ChanPending)[result := true]
+//@ func (*manager).maybeFetchData
+//@   requires m != nil
+//@   modifies ghost ChanKind, ghost ChanPending, ghost InFlight
+//@   ensures [same] old(m.data != nil || runch != nil) ==> result == runch && InFlight == old(InFlight) && ChanKind == old(ChanKind) && ChanPending == old(ChanPending)
+//@   ensures [started] old(m.data == nil && runch == nil) ==> result != nil && fresh(result) && InFlight == old(InFlight) + 1 && ChanKind == old(ChanKind)[result := 1] && ChanPending == old(ChanPending)[result := true]
+
+//@ import mtypes "github.com/ovrclk/akash/x/market/types"
+//@ extern mtypes.(LeaseID).Equals(id, other)
+//@   pure
+// deferred hand-back of the finished manager to the service (not a reply channel)
+//@ func (*manager).run$1
+//@   pure
+// the manager's event loop: whatever the order of lease, manifest, version, fetch-result and shutdown events, every
+// submission received is answered exactly once by the time the loop has ended (A-FRESHCH: each submission carries its
+// own fresh reply channel, as Service.Submit creates it)
+//@ func (*manager).run
+//@   requires m != nil && qOK(m, RepSt, QPos, Outst) && mOK(m) && sepOK(m) && timerOK(m, ChanKind) && InFlight == 0
+//@   requires m.leasech != nil && m.rmleasech != nil && m.manifestch != nil && m.updatech != nil
+//@   requires ChanKind[m.leasech] == 0 && ChanKind[m.rmleasech] == 0 && ChanKind[m.manifestch] == 0 && ChanKind[m.updatech] == 0
+//@   modifies m.requests, m.requests[**], m.pendingRequests, m.pendingRequests[**], m.manifests, m.manifests[**], m.leases, m.leases[**], m.versions, m.versions[**], m.data, m.data.Deployment.Version, m.stoptimer
+//@   modifies ghost RepSt, ghost QPos, ghost Outst, ghost ChanKind, ghost ChanPending, ghost InFlight
+//@   onsend * assert RepSt[sendch] == 1
+//@   select 1 case 4 assume recv.ch != nil && RepSt[recv.ch] == 0 && recv.value != nil && root(recv.value) != root(m)
+//@   select 1 case 4 ghost RepSt := RepSt[recv.ch := 1]
+//@   select 1 case 4 ghost QPos := QPos[recv.ch := len(m.requests) + 1]
+//@   select 1 case 4 ghost Outst := Outst + 1
+//@   select 1 case 6 assume root(resVal(recv)) != root(m) && freshloop(resVal(recv)) && (m.stoptimer != nil ==> root(resVal(recv)) != root(m.stoptimer))
+//@   loop 1 invariant qOK(m, RepSt, QPos, Outst) && mOK(m) && sepOK(m) && timerOK(m, ChanKind)
+//@   loop 1 invariant InFlight == ite(runch != nil, 1, 0)
+//@   loop 1 invariant arr(m.requests) == nil || arr(m.requests) == atloop(arr(m.requests)) || freshloop(m.requests)
+//@   loop 1 invariant arr(m.pendingRequests) == nil || arr(m.pendingRequests) == atloop(arr(m.pendingRequests)) || freshloop(m.pendingRequests)
+//@   loop 1 invariant arr(m.manifests) == nil || arr(m.manifests) == atloop(arr(m.manifests)) || freshloop(m.manifests)
+//@   loop 1 invariant arr(m.leases) == nil || arr(m.leases) == atloop(arr(m.leases)) || freshloop(m.leases)
+//@   loop 1 invariant arr(m.versions) == nil || arr(m.versions) == atloop(arr(m.versions)) || freshloop(m.versions)
+//@   loop 1 invariant m.data == nil || m.data == atloop(m.data) || freshloop(m.data)
+//@   loop 1 invariant runch != nil ==> ChanKind[runch] == 1 && ChanPending[runch] && m.data == nil
+//@   loop 1 invariant m.leasech != nil && m.rmleasech != nil && m.manifestch != nil && m.updatech != nil
+//@   loop 1 invariant ChanKind[m.leasech] == 0 && ChanKind[m.rmleasech] == 0 && ChanKind[m.manifestch] == 0 && ChanKind[m.updatech] == 0
+//@   loop 2 modifies m.leases, m.leases[**]
+//@   loop 2 invariant 0 <= iter && sepOK(m)
+//@   loop 2 invariant arr(m.leases) == nil || arr(m.leases) == atloop(arr(m.leases)) || freshloop(m.leases)
+//@   ensures [answered] Outst == 0
+
+//@ property C20 := (*manager).fillAllRequests#*, (*manager).emitReceivedEvents#*, (*manager).validateRequests#*, (*manager).maybeScheduleStop#*, (*manager).fetchData#*, (*manager).maybeFetchData#*, (*manager).run#*
